@@ -2352,6 +2352,12 @@ where
         return Err(FlipError::UnsupportedDimension { dimension: D });
     }
 
+    // Validate the target cell before touching the TDS so a stale/missing cell key cannot
+    // leave the new vertex behind as an isolated vertex.
+    if !tds.contains_cell(cell_key) {
+        return Err(FlipError::MissingCell { cell_key });
+    }
+
     let vertex_key =
         tds.insert_vertex_with_mapping(vertex)
             .map_err(|e| FlipError::TdsMutation {
